@@ -183,7 +183,9 @@ def after(case, q, ex, rec):
         if isinstance(ex, ValueError):
             # another documented refusal (excluded combination): not a capacity verdict
             rec.count('refused_other')
-            if kind == 'requested' and want is True and 'not available' not in str(ex) and 'Micro' not in str(ex):
+            from vmon.props.c14 import must_refuse
+            excluded = must_refuse({'fn': case.get('fn', 'make'), 'kw': case['kw']})
+            if kind == 'requested' and want is True and not excluded:
                 rec.deviation('C04', 'fitting-request-refused', {'error': repr(ex)})
             return
         rec.deviation('C04', 'wrong-exception', {'error': repr(ex)})
